@@ -407,7 +407,7 @@ class MinMaxAggregator:
         for blit in rule.body:
             if blit == agg:
                 continue
-            blit_vars = set(collect_ast(blit, "Variable"))
+            blit_vars = global_vars_inside_body([blit])  # not the local variables of conditions and aggregates
             if len(blit_vars.intersection(inside_variables)) != 0:
                 rest_vars.update(blit_vars)
                 lits_with_vars.append(blit)
